@@ -22,16 +22,18 @@ Trace == ndJsonDeserialize(TraceFile)
 VARIABLES l,        \* next line
           regs,     \* registrations consumed so far: [k, inv, ret]
           pend,     \* enumerations whose "no phantom" half waits for the end of the history: [ks, ret]
-          lostOK, phantomOK, nameOK, winOK
-vars == <<l, regs, pend, lostOK, phantomOK, nameOK, winOK>>
+          lostOK, phantomOK, nameOK, winOK,
+          retOK     \* every operation returned (a round whose goroutines never came back is recorded as "stuck")
+vars == <<l, regs, pend, lostOK, phantomOK, nameOK, winOK, retOK>>
 E == Trace[l]
 ToSet(s) == {s[i] : i \in 1..Len(s)}
 \* every enumeration consumed so far contains only definitions whose registration was invoked before it returned
 NoPhantoms(rs, ps) == \A p \in ps : \A k \in p.ks : \E r \in rs : r.k = k /\ r.inv < p.ret
-Init == l = 1 /\ regs = {} /\ pend = {} /\ lostOK = TRUE /\ phantomOK = TRUE /\ nameOK = TRUE /\ winOK = TRUE
+Init == l = 1 /\ regs = {} /\ pend = {} /\ lostOK = TRUE /\ phantomOK = TRUE /\ nameOK = TRUE /\ winOK = TRUE /\ retOK = TRUE
 Step ==
   /\ l <= Len(Trace) /\ l' = l + 1
-  /\ IF E.a \in {"hist", "end"}
+  /\ retOK' = (retOK /\ ~(E.a = "ev" /\ E.op = "stuck"))
+  /\ IF E.a \in {"hist", "end"} \/ E.op = "stuck"
      THEN \* "end" closes a history: settle the "no phantom" half; "hist" opens the next one
           /\ phantomOK' = (phantomOK /\ NoPhantoms(regs, pend))
           /\ regs' = {} /\ pend' = {}
@@ -54,6 +56,7 @@ M_C10_NoLostDefinition == lostOK
 M_C20_NoPhantomDefinition == phantomOK
 M_C20_LookupFindsRegistered == nameOK
 M_C20_OneWinnerPerName == winOK
+M_C20_RegistryReturns == retOK
 Accepted == IF TLCGet("stats").diameter = Len(Trace) + 1 THEN TRUE
             ELSE Print(<<"REJECTED_AFTER_LINE", TLCGet("stats").diameter - 1, "OF", Len(Trace)>>, FALSE)
 =============================================================================
